@@ -199,9 +199,25 @@ func runDpipe(h *common.History) {
 				obs = []string{strconv.Itoa(n), "0"}
 			case errors.Is(err, io.ErrClosedPipe):
 				obs = []string{strconv.Itoa(n), "2"}
+			case errors.Is(err, context.DeadlineExceeded):
+				// the write deadline of this end has passed: dpipe also discards what this end had queued for the peer
+				inflight[1-side] = 0
+				obs = []string{strconv.Itoa(n), "4"}
 			default:
 				obs = []string{strconv.Itoa(n), "99"}
 			}
+		case "4":
+			side := common.AtoI(op[1])
+			if closed[side] {
+				break // closed and past its write deadline: Write picks one of the two errors at random; kept out of the histories
+			}
+			if op[2] != "0" {
+				_ = conns[side].SetWriteDeadline(time.Now().Add(-time.Second))
+			} else {
+				_ = conns[side].SetWriteDeadline(time.Time{})
+			}
+			synctest.Wait()
+			h.Tags = append(h.Tags, "write_deadline")
 		case "2":
 			side, k := common.AtoI(op[1]), common.AtoI(op[2])
 			if !closed[side] && inflight[side] == 0 {
@@ -237,6 +253,8 @@ func runDpipe(h *common.History) {
 			}
 		default:
 			side := common.AtoI(op[1])
+			_ = conns[side].SetWriteDeadline(time.Time{}) // see case "4"
+			synctest.Wait()
 			_ = conns[side].Close()
 			closed[side] = true
 		}
@@ -322,8 +340,11 @@ func genDpipe(r *rand.Rand) *common.History {
 		switch {
 		case c < 50:
 			h.Ops = append(h.Ops, append([]string{"1", common.I(side)}, genMsg(r, &ctr)...))
-		case c < 95:
+		case c < 90:
 			h.Ops = append(h.Ops, []string{"2", common.I(side), common.I([]int{64, 64, 2, 0, 5}[r.IntN(5)])})
+		case c < 95:
+			// the write deadline of one end passes (or is cleared again) while messages are queued in both directions
+			h.Ops = append(h.Ops, []string{"4", common.I(side), common.I(r.IntN(3) % 2 * 0 + map[bool]int{true: 1, false: 0}[r.IntN(3) != 0])})
 		default:
 			if i > n/3 {
 				h.Ops = append(h.Ops, []string{"3", common.I(side)})
